@@ -89,8 +89,9 @@ def unusual(rng, sc):
     sc["period"] = rng.choice([5, 5, 5, 1, 7, 2.5])
     sc["voltages"] = [rng.choice([240, 240, 208, 120]) for _ in range(n)]
     sc["rates"] = [rng.choice([32, 32, 16, 80]) for _ in range(n)]
-    raw = rng.choice(["bool", "bool", "bool", "int", "none_or_str"])
-    sc["early_raw"] = sc["early"] if raw == "bool" else (1 if sc["early"] else 0) if raw == "int" else ("yes" if sc["early"] else None)
+    raw = rng.choice(["bool", "bool", "bool", "int", "none_or_str", "numpy"])
+    sc["early_raw"] = sc["early"] if raw == "bool" else (1 if sc["early"] else 0) if raw == "int" else \
+        ({"numpy_bool": sc["early"]} if raw == "numpy" else ("yes" if sc["early"] else None))
     sc["np_times"] = rng.random() < 0.25
     sc["est_dep"] = rng.random() < 0.25
 
@@ -180,7 +181,7 @@ def rand_hashprobe(rng):
     sc = dict(n=n, sessions=sessions, early=True, sched="direct", sched_seed=0,
               max_recompute=None, seed=rng.randint(0, 10 ** 6), ops=ops, ids=rand_ids(rng), poke=rng.random() < 0.4)
     unusual(rng, sc)
-    sc["early"], sc["early_raw"] = True, rng.choice([True, 1, "yes"])
+    sc["early"], sc["early_raw"] = True, rng.choice([True, 1, "yes", {"numpy_bool": True}])
     return sc
 
 
@@ -345,7 +346,10 @@ def _build(sc, shim):
             full = sorted(se_num[s] for s, ev in self.seen.items() if ev.fully_charged)
             return self._top(["P", full], lambda: snmod.StochasticNetwork.post_charging_update(self))
 
-    net = Rec(early_departure=sc.get("early_raw", sc["early"]))
+    raw = sc.get("early_raw", sc["early"])
+    if isinstance(raw, dict):
+        raw = np.bool_(raw["numpy_bool"])          # e.g. the result of a numpy comparison
+    net = Rec(early_departure=raw)
     net._rec_init()
     volts, rates = sc.get("voltages") or [], sc.get("rates") or []
     for i, sid in enumerate(station_ids(sc)):
